@@ -298,20 +298,24 @@ def accessor_agreement(repo, rep):
     for name, fi in repo.plugins().items():
         if name in pub_sa:
             rep.fail("R-C06-5", fi.file, fi.node.lineno, fi.qualname, f"def {name}", "output plugin shadows a SpecArray method")
-    w = sd.methods.get("_wrapper")
-    if w is None:
-        raise AnalysisError("SpecDataset._wrapper vanished")
-    src = unparse(w.node)
+    # the re-export loop lives in _wrapper (or, inlined, in __init__): found by what it does, not by its name
     spec = repo.attrs.SPECNAME
     ok = False
-    for n in ast.walk(w.node):
-        if isinstance(n, ast.Call) and call_name(n) == "getattr" and n.args:
-            a0 = n.args[0]
-            if isinstance(a0, ast.Attribute) and a0.attr == "spec" and isinstance(a0.value, ast.Subscript) and \
-                    unparse(a0.value.value) == "self.dset" and repo.const(w.module, a0.value.slice) == spec:
-                ok = True
+    w = None
+    for cand in sd.methods.values():
+        if any(isinstance(n, ast.Call) and call_name(n) == "setattr" for n in ast.walk(cand.node)):
+            w = w or cand
+            for n in ast.walk(cand.node):
+                if isinstance(n, ast.Call) and call_name(n) == "getattr" and n.args:
+                    a0 = n.args[0]
+                    if isinstance(a0, ast.Attribute) and a0.attr == "spec" and isinstance(a0.value, ast.Subscript) and \
+                            unparse(a0.value.value) == "self.dset" and repo.const(cand.module, a0.value.slice) == spec:
+                        ok = True
+                        w = cand
+    if w is None:
+        raise AnalysisError("SpecDataset: the loop re-exporting the array accessor's methods (setattr) was not found")
     if ok:
-        rep.ok("R-C06-5", f"{w.file}:{w.node.lineno} SpecDataset._wrapper", "methods re-exported from self.dset[efth].spec",
+        rep.ok("R-C06-5", f"{w.file}:{w.node.lineno} SpecDataset.{w.name}", "methods re-exported from self.dset[efth].spec",
                f"{len(pub_sa)} SpecArray members, none shadowed by SpecDataset or a plugin")
     else:
         rep.fail("R-C06-5", w.file, w.node.lineno, w.qualname, "_wrapper", "the re-exported methods are not those of self.dset[efth].spec")
